@@ -272,7 +272,7 @@ impl Ctx {
                     let seed = splitmix(self.seed ^ vhash.rotate_left(17) ^ ((sh as u64) << 48) ^ fnv(self.prop.as_bytes()));
                     std::thread::Builder::new()
                         .stack_size(64 << 20)
-                        .spawn_scoped(sc, move || run_shard(v, per, seed, self.tier))
+                        .spawn_scoped(sc, move || run_shard(v, per, seed, self.tier, sh))
                         .unwrap()
                 })
                 .collect();
@@ -399,7 +399,37 @@ pub struct ShardResult {
     pub failure: Option<(Case, String)>,
 }
 
-fn run_shard(v: &Variant, cases: usize, seed: u64, tier: Tier) -> ShardResult {
+/// In journal mode (after a crash of the first attempt) every case's choice vector is written to a
+/// per-shard file before it is executed, so the supervisor can find the case that killed the process.
+fn journal_file(v: &Variant, shard: usize) -> Option<std::fs::File> {
+    let dir = std::env::var("VERIF_JOURNAL").ok()?;
+    std::fs::OpenOptions::new().create(true).write(true).truncate(true).open(format!("{}/{}@{}.bin", dir, v.name, shard)).ok()
+}
+
+pub fn write_journal(f: &std::fs::File, choices: &[u32]) {
+    use std::os::unix::fs::FileExt;
+    let mut buf = Vec::with_capacity(4 + choices.len() * 4);
+    buf.extend_from_slice(&(choices.len() as u32).to_le_bytes());
+    for c in choices {
+        buf.extend_from_slice(&c.to_le_bytes());
+    }
+    let _ = f.write_all_at(&buf, 0);
+}
+
+pub fn read_journal(path: &str) -> Option<Vec<u32>> {
+    let b = std::fs::read(path).ok()?;
+    if b.len() < 4 {
+        return None;
+    }
+    let n = u32::from_le_bytes([b[0], b[1], b[2], b[3]]) as usize;
+    if b.len() < 4 + 4 * n {
+        return None;
+    }
+    Some((0..n).map(|i| u32::from_le_bytes([b[4 + 4 * i], b[5 + 4 * i], b[6 + 4 * i], b[7 + 4 * i]])).collect())
+}
+
+fn run_shard(v: &Variant, cases: usize, seed: u64, tier: Tier, shard: usize) -> ShardResult {
+    let journal = journal_file(v, shard);
     let mut res = ShardResult {
         evaluations: 0,
         nontrivial: HashSet::new(),
@@ -424,6 +454,9 @@ fn run_shard(v: &Variant, cases: usize, seed: u64, tier: Tier) -> ShardResult {
     let failed = AtomicBool::new(false);
     let cell = std::cell::RefCell::new((&mut res, Local::default()));
     let outcome = runner.run(&vec(proptest::num::u32::ANY, 0..=v.choice_len), |choices| {
+        if let Some(j) = &journal {
+            write_journal(j, &choices);
+        }
         let mut src = Src::new(&choices);
         let case = (v.gen)(&mut src, tier);
         let mut guard = cell.borrow_mut();
